@@ -767,7 +767,9 @@ fn build_db(p: &Value) -> Db {
         let info = if code.is_empty() {
             AccountInfo { balance: bal, nonce, ..Default::default() }
         } else {
-            let bc = Bytecode::new_raw(Bytes::from(code));
+            // Bytecode::new_raw panics (documented) on malformed EF00 / EF01 prefixes; random bytes that start
+            // with 0xEF are plain legacy code here (as on a pre-EIP-3541 chain), not EOF / EIP-7702 objects.
+            let bc = if code[0] == 0xef { Bytecode::new_legacy(Bytes::from(code)) } else { Bytecode::new_raw(Bytes::from(code)) };
             AccountInfo::new(bal, nonce, bc.hash_slow(), bc)
         };
         db.insert_account_info(addr_of(a["addr"].as_str().unwrap()), info);
